@@ -281,11 +281,37 @@ def gen_cases(rng, tier):
         lines = []
         for _ in range(2):
             for kind, el, p_ in sets:
+                if lines:
+                    # history across converters: the converter still in place projects a point whose latitude is
+                    # bit-identical to a defining parallel of the NEXT converter (possibly on another ellipsoid) right
+                    # before that one is constructed — a memo keyed on the latitude alone would now be stale
+                    key = rng.choice([k for k in ('lat0', 'lat1', 'lat2') if k in p_])
+                    lines.append('lam.fwd %s %s' % (D(p_[key]), D(p_['lon0'] + rng.uniform(-3, 3) * DEG)))
                 lines.append(_ctor_line(kind, el, p_))
+                lines.append('lam.fwd %s %s' % (D(p_['lat0']), D(p_['lon0'])))      # origin -> false origin (oracle)
                 for lat, lon in pts:
                     lines.append('lam.rt %s %s' % (D(lat), D(lon)))
                 lines.append('lam.jac %s %s %s' % (D(pts[0][0]), D(pts[0][1]), D(FD_H)))
+                # true scale on the defining parallels of the converter now in place (after other latitudes were evaluated)
+                for phi in ([p_['lat1'], p_['lat2']] if kind == 'secant' else [p_['lat0']]):
+                    lam = p_['lon0'] + rng.uniform(-20, 20) * DEG
+                    lines.append('lam.fwd %s %s' % (D(phi), D(lam)))
+                    lines.append('lam.jac %s %s %s' % (D(phi), D(lam), D(FD_H)))
         cases.append({'name': 'switch-%d' % i, 'lines': lines, 'meta': {'kind': 'switch'}})
+    # the static helpers called back to back with a bit-identical first argument and different eccentricities
+    # (state shared between calls / between converters on different ellipsoids must not exist)
+    for i in range(4 if quick else 40):
+        lines = []
+        for _ in range(12):
+            lat = rng.uniform(-80, 80) * DEG
+            es = [math.sqrt((a * a - b * b) / (a * a)) for a, b in (GRS80, CLARKE_IGN, INTL1924)] + [rng.uniform(0.0, 0.1)]
+            rng.shuffle(es)
+            for e in es[:rng.int(2, 4)]:
+                lines.append('lam.isolat %s %s' % (D(lat), D(e)))
+            L = _iso(lat, es[0])
+            for e in es[:rng.int(2, 4)]:
+                lines.append('lam.lat %s %s' % (D(L), D(e)))
+        cases.append({'name': 'helpers-same-arg-%d' % i, 'lines': lines, 'meta': {'kind': 'helpers'}})
     # six-argument constructor (the values of test_lambert_converter.cpp:146-152 and a southern cone)
     lines = ['lam.direct ' + ' '.join(D(v) for v in (0.0407923443, 0.760405966, 11603796.9767, 600000.0, 5657616.6740, 0.0824832568))]
     for _ in range(30):
